@@ -21,6 +21,7 @@ type PropSpec struct {
 	Harnesses []string                  `json:"harnesses"` // "pkgpath-suffix.FuncName"
 	Tiers     map[string]map[string]int `json:"tiers"`     // tier -> parameter overrides (engine config keys and harness params)
 	Bounds    map[string]string         `json:"bounds"`    // tier -> human-readable bound statement
+	PerHarness map[string]map[string]map[string]int `json:"per_harness"` // harness -> tier ("all" too) -> overrides
 	Assume    []string                  `json:"assumptions"`
 	Stubs     []string                  `json:"stubs"`
 }
@@ -38,6 +39,10 @@ func applyParams(cfg *Config, params map[string]int) {
 			cfg.AllocCap = v
 		case "mappermmax":
 			cfg.MapPermMax = v
+		case "delaybound":
+			cfg.DelayBound = v
+		case "preemptatlocks":
+			cfg.PreemptAtLocks = v != 0
 		case "maporderbudget":
 			cfg.MapOrderBudget = v
 		case "mapvariants":
@@ -187,6 +192,18 @@ func main() {
 		writeEvidence(*out, ev)
 		cleanup()
 		os.Exit(0)
+	}
+	eng.hcfg = map[string]*Config{}
+	for hn, tiers := range spec.PerHarness {
+		c := eng.cfg
+		c.Params = map[string]int{}
+		for k, v := range eng.cfg.Params {
+			c.Params[k] = v
+		}
+		applyParams(&c, tiers["all"])
+		applyParams(&c, tiers[*tier])
+		cc := c
+		eng.hcfg[hn] = &cc
 	}
 	var hs []*ssa.Function
 	for _, h := range spec.Harnesses {
